@@ -19,10 +19,14 @@ for s in theirs.get("fixed", []):
         ours["fixed"].append(s)
 json.dump(ours, open("known_findings.json", "w"), indent=1)
 # manifest entry from their generator
-src = show(b, "harness/gen_manifest.py")
-ns = {"__file__": "/verif/harness/gen_manifest.py"}
-exec(compile(src.split("NOT_YET =")[0], "theirs", "exec"), ns)
-json.dump(ns["CLAIMED"][pid], open("harness/manifest/%s.json" % pid, "w"), indent=1)
+mj = show(b, "harness/manifest/%s.json" % pid)
+if mj.strip():
+    open("harness/manifest/%s.json" % pid, "w").write(mj)
+else:
+    src = show(b, "harness/gen_manifest.py")
+    ns = {"__file__": "/verif/harness/gen_manifest.py"}
+    exec(compile(src.split("NOT_YET =")[0], "theirs", "exec"), ns)
+    json.dump(ns["CLAIMED"][pid], open("harness/manifest/%s.json" % pid, "w"), indent=1)
 open("harness/gen_manifest.py", "w").write(show("HEAD", "harness/gen_manifest.py"))
 p = "coq/theories/Extract/Run.v"
 s = open(p).read()
